@@ -342,6 +342,27 @@ def _noop(it, *a, **k):
     return None
 
 
+FS_EXISTS = z3.Function('fs_exists', StrS, z3.BoolSort())
+
+
+def _fs_exists(it, path):
+    """os.path.exists: a read of the file-system state, recorded in the trace"""
+    r = FS_EXISTS(term(path, StrS))
+    it.emit(Ev('Call', target='os.path.exists', method='__call__', args=(path,), kwargs={}, result=r, objs=(path,)))
+    return wrap(r)
+
+
+def _json_dumps(it, obj, **kw):
+    """json.dumps: an uninterpreted injective-on-JSON-values text (assumption T8); options are part of the symbol"""
+    opts = ','.join('%s=%s' % (k, kw[k] if isinstance(kw[k], (bool, int, str, type(None))) else getattr(kw[k], 'name', '?'))
+                    for k in sorted(kw))
+    if isinstance(obj, (Row, RowSnap)):
+        f = z3.Function('json_dumps_row[%s]' % opts, DomS, ValS, StrS)
+        return wrap(f(obj.dom, obj.val))
+    f = z3.Function('json_dumps[%s]' % opts, Cell, StrS)
+    return wrap(f(it.cell_of(obj)))
+
+
 def _reduce(it, fn, src, *init):
     if isinstance(src, lib.GenExp):
         src = lib.consume_comp(it, src, 'list')
@@ -387,10 +408,21 @@ def external_module(it, dotted):
         a.update(deepcopy=Builtin('copy.deepcopy', _deepcopy))
     elif dotted == 'os':
         p = ModuleV('os.path')
-        p.attrs.update(join=_uf_join(), dirname=_uf_str('os.path.dirname', 1), basename=_uf_str('os.path.basename', 1))
+        p.attrs.update(join=_uf_join(), dirname=_uf_str('os.path.dirname', 1), basename=_uf_str('os.path.basename', 1),
+                       exists=Builtin('os.path.exists', _fs_exists))
         a['path'] = p
+        a['cpu_count'] = Builtin('os.cpu_count', lambda it: 8)
+        a['getpid'] = Builtin('os.getpid', lambda it: 4242)
     elif dotted == 'os.path':
-        a.update(join=_uf_join(), dirname=_uf_str('os.path.dirname', 1), basename=_uf_str('os.path.basename', 1))
+        a.update(join=_uf_join(), dirname=_uf_str('os.path.dirname', 1), basename=_uf_str('os.path.basename', 1),
+                 exists=Builtin('os.path.exists', _fs_exists))
+    elif dotted == 'sys':
+        a['stdout'] = Opaque('file', 'sys.stdout')
+        a['stdin'] = Opaque('file', 'sys.stdin')
+    elif dotted == 'json':
+        a['dumps'] = Builtin('json.dumps', _json_dumps)
+        a['JSONEncoder'] = ClassV('JSONEncoder', node=None)
+        a['JSONDecoder'] = ClassV('JSONDecoder', node=None)
     elif dotted == 'collections':
         a.update(deque=Builtin('collections.deque', _deque), namedtuple=Builtin('namedtuple', _namedtuple))
         abc = ModuleV('collections.abc')
